@@ -180,6 +180,11 @@ def enumerate_faults(doc: dict) -> list[dict]:
         if isinstance(item, dict):
             for piece in ("param-array-no-items", "param-dangling-ref", "duplicate-params", "path-param-not-in-template", "header-date"):
                 out.append({"piece": piece, "pos": "path-item", "path": path})
+            # a bad path-item-level parameter that operations of the path override (same name + in) with a valid one:
+            # only the operations that do NOT override it depend on the bad piece
+            if _shadow_target(doc, item) is not None:
+                for piece in ("array-no-items", "dangling-ref", "bad-default-int", "mixed-enum"):
+                    out.append({"piece": piece, "pos": "path-item-shadowed", "path": path})
     comps = doc.get("components") or {}
     for name in (comps.get("parameters") or {}):
         if component_users(doc, "parameters", name):
@@ -296,6 +301,15 @@ def apply_fault(doc: dict, f: dict, n: int = 0) -> tuple[dict, set[str], list[st
         if not ops:
             raise NotApplicable("no operations on path")
         return d, set(ops), ops
+    if pos == "path-item-shadowed":
+        item = (d.get("paths") or {}).get(f["path"])
+        tgt = _shadow_target(d, item) if isinstance(item, dict) else None
+        if tgt is None or piece not in SCHEMA_PIECES:
+            raise NotApplicable(f["path"])
+        name, loc = tgt
+        item.setdefault("parameters", []).append({"name": name, "in": loc, "schema": copy.deepcopy(SCHEMA_PIECES[piece])})
+        ops = [f"E:{opid}" for opid, e in op_items(doc).items() if e["path"] == f["path"] and (name, loc) not in _op_level_params(doc, e["op"])]
+        return d, set(ops), ops
     if pos == "component-parameter":
         p = (comps.get("parameters") or {}).get(f["name"])
         if not isinstance(p, dict):
@@ -346,6 +360,29 @@ def _body_piece(piece: str) -> dict:
         "body-schema-array-no-items": {"content": {"application/json": {"schema": {"type": "array"}}}},
         "body-dangling-ref": {"content": {"application/json": {"schema": {"$ref": "#/components/schemas/Nope"}}}},
     }[piece]
+
+
+def _op_level_params(doc: dict, op: dict) -> set[tuple[str, str]]:
+    out: set[tuple[str, str]] = set()
+    for p in op.get("parameters") or []:
+        p = _resolve_component(doc, p, "parameters")
+        if isinstance(p, dict) and isinstance(p.get("name"), str) and isinstance(p.get("in"), str):
+            out.add((p["name"], p["in"]))
+    return out
+
+
+def _shadow_target(doc: dict, item: dict) -> tuple[str, str] | None:
+    """A (name, in) that an operation of this path item declares at operation level, that the path item itself does not
+    declare yet and that is not a path parameter (first in document order)."""
+    have = _op_level_params(doc, item)
+    for m in METHODS:
+        op = item.get(m)
+        if isinstance(op, dict) and op.get("operationId"):
+            for p in op.get("parameters") or []:
+                p = _resolve_component(doc, p, "parameters")
+                if isinstance(p, dict) and p.get("in") in ("query", "header", "cookie") and isinstance(p.get("name"), str) and (p["name"], p["in"]) not in have:
+                    return p["name"], p["in"]
+    return None
 
 
 def _add_param_piece(params: list, piece: str, bad: str, path: str) -> None:
@@ -483,13 +520,18 @@ def run_seed(args: dict, sandbox: str) -> dict:
             "config": docgen.random_config(a, doc),
             # two idempotent post-hooks (real subprocesses run in the project directory) in a quarter of the runs
             "post_hooks": a.choice([[], [], [], ["touch hook1.txt", "touch hook2.txt"]])}
+    # a fifth of the runs also regenerate D' with --overwrite OVER the tree of D (the document "went bad" between two
+    # generations): what was removed with the bad piece must be gone from the existing tree as well
+    spec["regen_over_clean"] = a.random() < 0.2
+    if spec["regen_over_clean"]:
+        spec["meta"] = a.choice(["none", "poetry", "pdm", "setup"])
     res = run_spec({"spec": spec}, sandbox)
     if not res.get("violations"):
         res.pop("spec", None)
     return res
 
 
-def _generate(doc: dict, spec: dict, sandbox: str, tag: str) -> dict:
+def _generate(doc: dict, spec: dict, sandbox: str, tag: str, over: str | None = None) -> dict:
     from sim import genrun
 
     base = os.path.join(sandbox, tag)
@@ -500,7 +542,13 @@ def _generate(doc: dict, spec: dict, sandbox: str, tag: str) -> dict:
     cfg = genrun.write_config(base, {"post_hooks": list(spec.get("post_hooks") or []), **(spec.get("config") or {})})
     out = os.path.join(base, "gen", f"pkg_{tag}")
     os.makedirs(os.path.dirname(out))
-    res = genrun.run_cli(["generate", "--path", dp, "--config", cfg, "--meta", spec.get("meta", "none"), "--output-path", out])
+    extra = []
+    if over is not None:
+        import shutil
+
+        shutil.copytree(over, out, symlinks=True)  # regenerate over an existing tree
+        extra = ["--overwrite"]
+    res = genrun.run_cli(["generate", "--path", dp, "--config", cfg, "--meta", spec.get("meta", "none"), "--output-path", out, *extra])
     tree = genrun.read_tree(out) if os.path.isdir(out) else {}
     return {"res": res, "tree": tree, "out": out}
 
@@ -548,7 +596,8 @@ def run_spec(args: dict, sandbox: str) -> dict:
         errors = [d for d in diags if d["level"] == "ERROR"]
         if errors or fres["exit_code"] != 0:
             viol("bad-piece-rejected-whole-document", locus0, f"exit={fres['exit_code']} error diagnostics={[d['header'] for d in errors][:3]}")
-        if applied and not diags:
+        # (a bad path-item parameter that EVERY operation overrides is never used: nothing depends on it, nothing to report)
+        if applied and not diags and any(names or f_["pos"] != "path-item-shadowed" for f_, names in must_name):
             viol("bad-piece-without-diagnostic", locus0, "faulted document generated without any diagnostic")
     schema_names = sorted(((doc.get("components") or {}).get("schemas") or {}))
     schema_names_f = sorted(((d2.get("components") or {}).get("schemas") or {}))
@@ -612,6 +661,18 @@ def run_spec(args: dict, sandbox: str) -> dict:
         if dangling:
             rel0, tgt0 = dangling[0]
             viol("survivor-refers-to-removed", f"{_fileclass(rel0)}->{_fileclass(tgt0)}", f"{rel0} imports {tgt0!r} which does not exist in out(D') (all: {dangling[:4]})")
+        if spec.get("regen_over_clean") and t1:
+            regen = _generate(d2, spec, sandbox, "regen", over=clean["out"])
+            t2 = regen["tree"]
+            if regen["res"]["exception"]:
+                viol("crash-on-bad-piece", f"{regen['res']['exception']}@{genrun.tb_locus(regen['res']['tb'])}", f"regeneration over the clean tree: unhandled {regen['res']['exception']}: {regen['res']['exception_msg']}")
+            elif t2 != t1:
+                extra_f = sorted(set(t2) - set(t1))
+                missing_f = sorted(set(t1) - set(t2))
+                differ_f = sorted(k for k in t1 if k in t2 and t1[k] != t2[k])
+                what = "stale" if extra_f else ("missing" if missing_f else "differs")
+                rel0 = (extra_f or missing_f or differ_f)[0]
+                viol("regenerated-tree-differs", f"{what}:{_fileclass(rel0)}", f"D' generated with --overwrite over the tree of D differs from D' generated afresh: stale={extra_f[:4]} missing={missing_f[:4]} differ={differ_f[:4]}")
         if faulted["tree"]:
             fails = genrun.import_all_modules(os.path.dirname(faulted["out"]), os.path.basename(faulted["out"]))
             if fails:
@@ -743,6 +804,10 @@ def shrink_candidates(spec: dict) -> list[dict]:
     if spec.get("post_hooks"):
         s = copy.deepcopy(spec)
         s["post_hooks"] = []
+        out.append(s)
+    if spec.get("regen_over_clean"):
+        s = copy.deepcopy(spec)
+        s["regen_over_clean"] = False
         out.append(s)
     protect = lambda p: p in (("info",), ("info", "title"), ("info", "version"), ("openapi",), ("paths",))  # noqa: E731
     for d in driver.tree_candidates(spec["doc"], limit=250, protect=protect):
